@@ -35,7 +35,7 @@ _c13("K13-sunion-p2", "c13_simple_union_prog2", ["SimpleUnion::<Arr>::{build,adv
      "2 leaves x <=3 docs, ids < 300, programs of 2 calls; unwind 5", title="SimpleUnion = A∪B", timeout=900)
 _c13("K13-sunion-p3", "c13_simple_union_prog3", ["SimpleUnion::{build,advance,seek}"], "as above, 3 calls", title="SimpleUnion, 3-call programs", tiers="t", timeout=900)
 _c13("K13-reqopt-p2", "c13_reqopt_prog2", ["RequiredOptionalScorer::<_,_,SumCombiner>::{advance,seek,doc,score}"],
-     "2 leaves x <=3 docs, programs of 2 calls with optional score reads in between; unwind 5",
+     "2 leaves x <=3 docs, programs of 2 calls over {advance, seek(t), seek_danger(t)} with optional score reads in between; unwind 5",
      title="RequiredOptional = required set; score = req (+ opt when it matches), cached value stable", timeout=120)
 _c13("K13-reqopt-p3", "c13_reqopt_prog3", ["RequiredOptionalScorer::{advance,seek,doc,score}"], "as above, 3 calls", title="RequiredOptional, 3-call programs", timeout=180)
 _c13("K13-wrappers-p3", "c13_const_boost_wrappers_prog3", ["BoostScorer::{advance,seek,fill_buffer,count_including_deleted,score}", "ConstScorer::{...}", "DocSet::{fill_buffer,count_including_deleted} (defaults)"],
